@@ -1,0 +1,90 @@
+package expressions
+
+// Binding levels of the operators of the expression grammar, loosest first. They are the same in the
+// legacy and the current grammar.
+const (
+	levelConcatenation = iota + 1
+	levelEquality
+	levelComparison
+	levelAdditive
+	levelMultiplicative
+	levelExponent
+	levelNegation
+	levelAtom
+)
+
+// loosestLevel returns the binding level of the loosest operator of a migrated expression which is
+// outside of any parentheses, brackets and text literals, or levelAtom if there is none.
+func loosestLevel(expr string) int {
+	level := levelAtom
+	depth := 0
+	operandBefore := false // whether a - here would be a subtraction rather than a negation
+
+	found := func(l int) {
+		if depth == 0 && l < level {
+			level = l
+		}
+		operandBefore = false
+	}
+
+	for i := 0; i < len(expr); i++ {
+		switch ch := expr[i]; ch {
+		case ' ', '\t', '\n', '\r':
+		case '"':
+			for i++; i < len(expr) && expr[i] != '"'; i++ {
+				if expr[i] == '\\' {
+					i++
+				}
+			}
+			operandBefore = true
+		case '(', '[':
+			depth++
+			operandBefore = false
+		case ')', ']':
+			depth--
+			operandBefore = true
+		case ',':
+			operandBefore = false
+		case '&':
+			found(levelConcatenation)
+		case '=':
+			found(levelEquality)
+		case '!':
+			found(levelEquality)
+			i++ // !=
+		case '<', '>':
+			found(levelComparison)
+			if i+1 < len(expr) && expr[i+1] == '=' {
+				i++
+			}
+		case '+':
+			found(levelAdditive)
+		case '-':
+			if operandBefore {
+				found(levelAdditive)
+			} else {
+				found(levelNegation)
+			}
+		case '*', '/':
+			found(levelMultiplicative)
+		case '^':
+			found(levelExponent)
+		default:
+			operandBefore = true
+		}
+	}
+	return level
+}
+
+// group puts a migrated operand in parentheses unless all of its operators outside parentheses bind at
+// least as tightly as minLevel, i.e. unless it would be read as a single operand anyway.
+func group(expr string, minLevel int) string {
+	if loosestLevel(expr) < minLevel {
+		return "(" + expr + ")"
+	}
+	return expr
+}
+
+// groupLeft and groupRight group the operands of a left-associative binary operator of the given level
+func groupLeft(expr string, level int) string  { return group(expr, level) }
+func groupRight(expr string, level int) string { return group(expr, level+1) }
